@@ -1,9 +1,9 @@
-// counterexamples for harness c14::c14_unique_idx_last_leading_nulls_opt_n4 (property C14); replay: ./check C14 --replay <this file>
+// counterexamples for harness c14::c14_unique_idx_last_leading_nulls_opt_n5 (property C14); replay: ./check C14 --replay <this file>
 // features: c14,thorough
 #![allow(unused_imports)]
 use crate::c14::*;
 
-/// Test generated for harness `c14::c14_unique_idx_last_leading_nulls_opt_n4` 
+/// Test generated for harness `c14::c14_unique_idx_last_leading_nulls_opt_n5` 
 ///
 /// Check for `assertion`: ""an index of a null is never produced""
 ///
@@ -19,16 +19,16 @@ use crate::c14::*;
 /// logic.
 
 #[test]
-fn kani_concrete_playback_c14_unique_idx_last_leading_nulls_opt_n4_17287641373746111680() {
+fn kani_concrete_playback_c14_unique_idx_last_leading_nulls_opt_n5_14507055183862393790() {
     let concrete_vals: Vec<Vec<u8>> = vec![
-        // 3ul
-        vec![3, 0, 0, 0, 0, 0, 0, 0],
+        // 4ul
+        vec![4, 0, 0, 0, 0, 0, 0, 0],
         // 1
         vec![1],
-        // 0
-        vec![0],
-        // 0
-        vec![0, 0, 0, 0],
+        // 1
+        vec![1],
+        // -1
+        vec![255, 255, 255, 255],
     ];
-    kani::concrete_playback_run(concrete_vals, c14_unique_idx_last_leading_nulls_opt_n4);
+    kani::concrete_playback_run(concrete_vals, c14_unique_idx_last_leading_nulls_opt_n5);
 }
